@@ -1943,6 +1943,18 @@ func (sc *serverConn) flushStreams(strms Streams, closeStream func(*Stream)) {
 func (sc *serverConn) sendPingAndSchedule() {
 	sc.writePing()
 
+	// The ping may have waited for room on the queue until the connection was
+	// torn down, timers stopped and all. Re-arming now would bring the timer
+	// back for good: it would go on firing, and keep the connection and all it
+	// refers to from being collected.
+	select {
+	case <-sc.writeStop:
+		return
+	case <-sc.writeGone:
+		return
+	default:
+	}
+
 	sc.pingTimer.Reset(sc.pingInterval)
 }
 
